@@ -25,7 +25,11 @@ RULE = ('(bfs) small generated DWARF sets (2-3 units, <= 14 entries, sibling att
         'restored by replaying the shortest path on a fresh object; every operation is applied to every '
         'distinct state up to the depth/state bound. (hist) random histories of 60-400 operations on '
         'corpus binaries and generated files at the DWARF level and at the ELF level (sections, data, '
-        'segments, address mapping, symbols, hash lookups, tags, notes, relocations, versions, strings). '
+        'segments, address mapping, symbols, hash lookups, tags, notes, relocations, versions, strings); '
+        'every other ELF history re-uses the section/segment objects it was handed; (hist_obj) 6-30 calls to ONE '
+        'section object, every corpus file and every class in turn, scarce classes first; walks (symbols, tags, '
+        'notes, relocations incl. RELR) are interrupted by other uses of the stream between two steps and judged '
+        'against the undisturbed walk of a fresh object. '
         'Oracle: digest equality with the fresh-object answer; cache invariants after every operation.')
 ASSUMPTIONS = [
     'the abstract state is a hash of the private cache attributes (read, never written); replay '
